@@ -241,6 +241,10 @@ pub fn directed_specs() -> Vec<GSpec> {
     push("zst-most-aligned-first", 1, vec![a(0, "flag"), a(1, "tag"), a(24, "marker"), cl(Append), a(2, "n"), cl(AppendRev)]);
     // a datum replaced, in one step, by a datum of another type under the same name
     push("same-name-replaced", 3, vec![a(19, "payload"), u(2, "n"), a(15, "s"), cl(Simple), rm(0), a(3, "payload"), cl(Simple), rm(2), a(21, "s"), rm(3), a(22, "payload"), cl(Simple)]);
+    // data withdrawn before their variant is closed (not the last one added), others added after
+    // them: the declaration order is the order of the requests that survive
+    push("withdrawn-in-same-step", 3, vec![a(2, "first"), a(15, "second"), rm(0), a(1, "third"), a(19, "fourth"), cl(Simple), a(3, "fifth"), a(16, "sixth"), rm(4), a(0, "seventh"), rm(1), a(22, "eighth"), cl(Simple), a(15, "ninth"), rm(7), u(2, "tenth"), cl(Simple)]);
+    push("withdrawn-in-same-step-basic", 2, vec![a(3, "p"), a(2, "q"), a(15, "r"), rm(1), rm(0), a(1, "s"), a(0, "t"), cl(Basic), a(19, "v"), rm(3), a(3, "w"), cl(Append)]);
     // removal-only steps down to an empty variant, then data again
     push("removal-only-to-empty", 3, vec![a(15, "s"), a(19, "t"), a(2, "n"), a(21, "big"), cl(Simple), rm(2), rm(3), cl(Simple), rm(0), rm(1), cl(Simple), a(20, "pair"), u(1, "w"), cl(Simple)]);
     // empty first variant
@@ -462,6 +466,24 @@ pub fn random_spec(rng: &mut Rng, index: usize) -> GSpec {
                 issued += 1;
             }
         }
+        // sometimes one of the data added in this very step (not the last one) is withdrawn
+        // again before the close, and another datum is added after it
+        if nadds >= 2 && live.len() >= nadds && rng.chance(1, 5) {
+            let i = live.len() - nadds + rng.below(nadds - 1);
+            let (k, old_name) = live.remove(i);
+            reqs.push(GReq::Remove { k });
+            let is_drop = rng.chance(1, 2);
+            let p = if is_drop { *rng.pick(&droppable) } else { *rng.pick(&plain) };
+            let name = if rng.chance(1, 2) {
+                old_name
+            } else {
+                next_name += 1;
+                fresh_name(next_name - 1)
+            };
+            reqs.push(GReq::Add { pal: p, uninit: !is_drop && rng.chance(1, 2), name: name.clone() });
+            live.push((issued, name));
+            issued += 1;
+        }
         if v > 0 && reqs.last().map_or(true, |r| matches!(r, GReq::Close { .. })) {
             // nothing changed: a close would create no variant
             continue;
@@ -476,18 +498,23 @@ pub struct Built {
     pub def: RecordDefinition<NativeDatumDetails>,
     /// datum id -> palette index
     pub pal_of: BTreeMap<usize, usize>,
+    /// datum id -> position of its add request in the history: the declaration order is the
+    /// order of the requests, whatever identifiers the builder hands out
+    pub decl_of: BTreeMap<usize, usize>,
 }
 
 pub fn build_spec(spec: &GSpec) -> Result<Built, String> {
     let mut b: Builder = NativeRecordDefinitionBuilder::new(HostTypeResolver);
     let mut issued: Vec<DatumId> = Vec::new();
     let mut pal_of = BTreeMap::new();
+    let mut decl_of = BTreeMap::new();
     let mut closes = 0usize;
-    for r in &spec.reqs {
+    for (ri, r) in spec.reqs.iter().enumerate() {
         match r {
             GReq::Add { pal, uninit, name } => {
                 let id = add_pal(&mut b, *pal, *uninit, name)?;
                 pal_of.insert(id_of(id), *pal);
+                decl_of.insert(id_of(id), ri);
                 issued.push(id);
             }
             GReq::Orphan { name } => {
@@ -516,7 +543,7 @@ pub fn build_spec(spec: &GSpec) -> Result<Built, String> {
             }
         }
     }
-    Ok(Built { def: b.build(), pal_of })
+    Ok(Built { def: b.build(), pal_of, decl_of })
 }
 
 struct FieldInfo {
@@ -534,7 +561,9 @@ fn variant_fields(built: &Built) -> Vec<Vec<FieldInfo>> {
         .def
         .variants()
         .map(|v| {
-            v.data_sorted()
+            let mut ids: Vec<DatumId> = v.data().collect();
+            ids.sort_by_key(|d| built.decl_of.get(&id_of(*d)).copied().unwrap_or(usize::MAX));
+            ids.into_iter()
                 .map(|d| {
                     let dd = &built.def[d];
                     FieldInfo {
